@@ -2423,9 +2423,11 @@ PPL::MIP_Problem::OK() const {
       }
     }
 
-    // Check that every integer declared variable is really integer.
-    // in the solution found.
-    if (!i_variables.empty()) {
+    // Check that every integer declared variable is really integer
+    // in the solution found; this only makes sense if the cached point
+    // has been computed after the integrality requirements were set
+    // (which is not the case when status is PARTIALLY_SATISFIABLE).
+    if (!i_variables.empty() && status != PARTIALLY_SATISFIABLE) {
       PPL_DIRTY_TEMP_COEFFICIENT(gcd);
       // TODO: This can be optimized more, exploiting the (possible)
       // sparseness of last_generator, if the size of i_variables is expected
